@@ -127,7 +127,14 @@ impl<V> CacheEntry<V> {
     }
 
     // Check for TTI expiration.
+    self.is_idle_expired(tti)
+  }
+
+  /// Checks if the entry has been idle for longer than the time-to-idle.
+  #[inline]
+  pub(crate) fn is_idle_expired(&self, tti: Option<Duration>) -> bool {
     if let Some(time_to_idle) = tti {
+      let now_nanos = time::now_duration().as_nanos() as u64;
       let last_accessed = self.last_accessed.load(Ordering::Relaxed);
       // The check `last_accessed > 0` is removed. The `Option` on `tti` is the
       // correct guard to determine if TTI logic should run.
